@@ -170,7 +170,7 @@ Definition py_num_match (s : ustr) : bool :=
 Definition ql_py_reserved (low : ustr) : bool :=
   (in_strs low g_kw_future || in_strs low g_kw_current) && negb (in_strs low g_kw_partial).
 
-Definition ql_needs_quoting (s : ustr) (allow_reserved allow_num : bool) : bool :=
+Definition ql_needs_quoting (s : ustr) (allow_reserved allow_num allow_partial : bool) : bool :=
   match s with
   | [] => false
   | c :: _ =>
@@ -179,19 +179,21 @@ Definition ql_needs_quoting (s : ustr) (allow_reserved allow_num : bool) : bool 
     let low := py_lower s in
     (* reserved __names__ are never back-quoted: the lexer rejects `__x__` anyway *)
     let is_reserved := negb (prefix g_ql_exempt_start low && suffix g_ql_exempt_end low) && ql_py_reserved low in
-    negb isalnum || (negb allow_reserved && is_reserved)
+    (* by_type[PARTIAL_RESERVED_KEYWORD]: union / except / intersect *)
+    let is_partial := in_strs low g_kw_partial in
+    negb isalnum || (negb allow_reserved && is_reserved) || (negb allow_partial && is_partial)
   end.
 
 Definition ql_quote_ident_raw (s : ustr) : ustr :=
   g_ql_id_quote :: replace_char g_ql_id_quote g_ql_id_rep s ++ [g_ql_id_quote].
-Definition ql_quote_ident (force allow_reserved allow_num : bool) (s : ustr) : ustr :=
-  if force || ql_needs_quoting s allow_reserved allow_num then ql_quote_ident_raw s else s.
+Definition ql_quote_ident (force allow_reserved allow_num allow_partial : bool) (s : ustr) : ustr :=
+  if force || ql_needs_quoting s allow_reserved allow_num allow_partial then ql_quote_ident_raw s else s.
 
 (* ================================================================== Python: edb/edgeql/codegen.py *)
 
 (* a name that already starts with a backtick is written as it is *)
 Definition ql_param_to_str (s : ustr) : ustr :=
-  if prefix [96] s then 36 :: s else 36 :: ql_quote_ident false true true s.
+  if prefix [96] s then 36 :: s else 36 :: ql_quote_ident false true true true s.
 
 (* CPython unicode_repr *)
 Definition repr1 (q c : N) : ustr :=
